@@ -368,3 +368,26 @@ def replay_dynamic_classes_attribute(prop, v):
 
 
 REPLAYS["Node.__init__"] = replay_dynamic_classes_attribute
+
+
+def replay_overtime_stamp(prop, v):
+    """whole-run witness (E7): node 1 has a non-pre-emptive schedule (1 server until t=5, then 1 server until t=100); its customer finishes at
+    t=4 but is blocked towards node 2 until t=20, so the server works overtime and leaves at t=20 -- in the middle of an event of node 2"""
+    ciw = _ciw()
+    N = ciw.create_network(
+        arrival_distributions=[ciw.dists.Sequential([1.0, float('inf')]), ciw.dists.Sequential([0.5, float('inf')])],
+        service_distributions=[ciw.dists.Deterministic(3.0), ciw.dists.Deterministic(19.5)],
+        number_of_servers=[ciw.Schedule(numbers_of_servers=[1, 1], shift_end_dates=[5, 100]), 1],
+        queue_capacities=[float('inf'), 0],
+        routing=[[0.0, 1.0], [0.0, 0.0]])
+    Q = ciw.Simulation(N)
+    Q.simulate_until_max_time(60)
+    n1 = Q.transitive_nodes[0]
+    if n1.overtime and abs(n1.overtime[0] - 15.0) > 1e-9:
+        return dict(confirmed=True, kind="whole-run",
+                    transcript=f"the overtime server of node 1 left at t=20 (shift ended at t=5): overtime recorded {n1.overtime[0]} instead of 15.0, "
+                               f"total server time {n1.all_servers_total[0]} instead of 20.0 (kill_server stamped the node's NEXT event date, t=100)")
+    return dict(confirmed=False, kind="whole-run", transcript=f"overtime {n1.overtime}, totals {n1.all_servers_total}")
+
+
+REPLAYS["Node.kill_server"] = replay_overtime_stamp
